@@ -11,6 +11,8 @@ Deciding steps (see pyvc/minify.py, pyvc/lexreg.py):
   4. BOUNDED: every witness program through the real minifier and the reference tokenizer (three configurations).
 """
 import ast
+import json
+import os
 import multiprocessing as mp
 
 from pyvc.report import Check
@@ -180,6 +182,35 @@ def wiring():
     return res
 
 
+def _bounded_only(chk, prop, nat=None):
+    """The deductive part could not be built (the writer left the supported subset): the bounded runs still decide what they can -- a
+    failing input found natively is a violation whatever the state of the proof."""
+    try:
+        if nat is None:
+            nat = minnative.run(LS.NUMBER_PICO8, lexreg.symbols_of_impl(), True, (), True, ())
+    except Exception as e:
+        chk.undecide('BOUNDED:minify/native differential did not run: %r' % (e,))
+        nat = {'bad': [], 'accepted': 0, 'n_compared': 0}
+    if prop == 'C01':
+        for src, args, why in nat['bad'][:4]:
+            if 'renamed' in why or 'two identifiers' in why:
+                continue
+            chk.violation('BOUNDED:minify/native differential: %s' % why[:60],
+                          {'program': repr(bytes.fromhex(src)), 'config': args, 'observed': why}, True)
+        chk.bounded = {'rule': 'BOUNDED: %d witness programs x 3 configurations through the real minifier and the reference tokenizer' % nat['accepted'],
+                       'evaluations': nat['n_compared'], 'failures': len(nat['bad'])}
+    else:
+        hn = header_native()
+        if hn.get('timeout') or hn.get('error'):
+            chk.undecide('BOUNDED:minify/header run did not finish: %s' % (hn.get('error') or 'timeout'))
+        else:
+            chk.bounded = {'rule': 'BOUNDED: header shapes x 2 configurations through the real minifier (see the C19 check)', 'evaluations': hn['n'],
+                           'failures': len(hn['bad'])}
+            if hn['bad']:
+                chk.violation('BOUNDED:minify/header comments are not kept at the top of the output', {'witness': hn['bad'][:4]}, True)
+    return chk.finish()
+
+
 def run(tier, seed, prop='C01'):
     chk = Check(prop, 'proof', tier, seed)
     from pyvc import ground
@@ -191,7 +222,7 @@ def run(tier, seed, prop='C01'):
         classes = minify.token_classes()
     except SymErr as e:
         chk.undecide('LuaMinifyTokenWriter.to_lines left the supported subset: %s' % e)
-        return chk.finish()
+        return _bounded_only(chk, prop)
     syms = lexreg.symbols_of_impl()
     with ProcessPoolExecutor(max_workers=15, mp_context=mp.get_context('fork')) as pool:
         K = minify.byte_constants()
@@ -201,7 +232,7 @@ def run(tier, seed, prop='C01'):
             init, table, side = minify.reachable_table(pool)
         except SymErr as e:
             chk.undecide('LuaMinifyTokenWriter.to_lines left the supported subset: %s' % e)
-            return chk.finish()
+            return _bounded_only(chk, prop, f_nat.result())
         try:
             rs = [f.result() for f in f_fuse]
         except R.Unsupported as e:
@@ -291,6 +322,27 @@ def run(tier, seed, prop='C01'):
         chk.violation('BOUNDED:minify/native differential: %s' % why[:60],
                       {'program': repr(bytes.fromhex(src)), 'config': args, 'observed': why}, True)
     chk.native_witness = [b for b in nat['bad'] if 'renamed' not in b[2] and 'two identifiers' not in b[2]]
+    if prop == 'C19':
+        hn = header_native()
+        if hn.get('timeout') or hn.get('error'):
+            chk.undecide('BOUNDED:minify/header run did not finish: %s' % (hn.get('error') or 'timeout'))
+        else:
+            chk.bounded = {'rule': 'BOUNDED: header shapes (0-3 leading comments of kinds --, //, one-line and multi-line block comments, level-2 '
+                                   'brackets; blank / whitespace lines or a blank before and between them; code on the next line or the same '
+                                   'line; a later comment) x 2 configurations through the real minifier: the output begins with the first two '
+                                   'leading comments (found by the reference tokenizer), each followed by a line end, and the rest has the '
+                                   'code tokens of the input and no comment turned into code',
+                           'evaluations': hn['n'], 'failures': len(hn['bad'])}
+            chk.native_witness = hn['bad']
+            if hn['bad']:
+                for v in chk.violations:
+                    if not v['confirmed']:
+                        p = json.load(open(v['replay']))
+                        p['native_witness'] = hn['bad'][:2]
+                        json.dump(p, open(v['replay'], 'w'), indent=1, default=str)
+                        v['confirmed'] = True
+                if not chk.violations:
+                    chk.violation('BOUNDED:minify/header comments are not kept at the top of the output', {'witness': hn['bad'][:4]}, True)
     chk.trust('pyvc symbolic executor (real loop body -> transition relation); exhaustive exploration of the finite control x ghost space')
     chk.trust('REG decision procedure over LexSpec (specs/lexspec.py) for the FUSE relation; real patterns parsed with re._parser')
     chk.assume('the loop body depends on the token only through its class, `token.code in b\'])}\'` and the chunks it yields (checked: '
@@ -363,6 +415,77 @@ def replay_path(bad, name):
             break
         payload.setdefault('tried', []).append({'program': repr(cand), 'observed': out})
     return confirmed, payload
+
+
+_HEADER_NATIVE = r'''
+import itertools, json, sys
+sys.path.insert(0, @VERIF@)
+from specs import reflex
+from pico8.lua import lua, lexer
+SYMS = sorted({p.pattern.replace(b'\\', b'') for p, c in lexer._TOKEN_MATCHERS if c is lexer.TokSymbol} | {b'\\'}, key=len, reverse=True)
+LINE = [b'-- title', b'// by me', b'--', b'-- trailing  ', b'--title']
+BLOCK = [b'--[[ block ]]', b'--[[ two\nlines ]]', b'--[==[ lvl ]] ]==]', b'--[[\nstarts with a line end\n]]']
+bad, n = [], 0
+def check(src):
+    global n
+    try:
+        toks = reflex.tokenize(src, SYMS)
+    except reflex.Outside:
+        return
+    hdr = []
+    for kind, text, line, col, value in toks:
+        if kind == 'comment':
+            if len(hdr) < 2: hdr.append(text)
+        elif kind not in ('space', 'newline'):
+            break
+    want = b''.join(c + b'\n' for c in hdr)
+    for args in ({}, {'keep_all_names': True}):
+        n += 1
+        try:
+            l = lua.Lua.from_lines([src], version=8)
+            out = b''.join(l.to_lines(writer_cls=lua.LuaMinifyTokenWriter, writer_args=dict(args)))
+        except Exception as e:
+            if len(bad) < 8: bad.append([src.decode('latin1'), 'luamin raised %s: %s' % (type(e).__name__, e)])
+            continue
+        if not out.startswith(want):
+            if len(bad) < 8: bad.append([src.decode('latin1'), 'the output %r does not begin with the header comments %r' % (out[:80], want)])
+            continue
+        try:
+            rest = [(k, t) for k, t, *_ in reflex.tokenize(out[len(want):], SYMS) if k not in ('space', 'newline')]
+            code = [(k, t) for k, t, *_ in toks if k not in ('space', 'newline', 'comment')]
+        except reflex.Outside:
+            continue
+        if [k for k, t in rest if k != 'comment'] != [k for k, t in code]:
+            if len(bad) < 8: bad.append([src.decode('latin1'), 'a comment turned into code or code into a comment: %r' % out[:100]])
+for lead in (b'', b'\n', b'  ', b'\n\n \n'):
+    for k in range(0, 4):
+        for cs in itertools.product(LINE[:3] + BLOCK[:3], repeat=k) if k < 3 else [(LINE[0], BLOCK[1], LINE[1]), (BLOCK[3], LINE[3], LINE[4]), (BLOCK[0], BLOCK[0], BLOCK[0])]:
+            for sep in (b'\n', b'\n\n', b'\n \t\n', b' '):
+                for tail in (b'\nx=1\n', b' x=1\n', b'\n\nx=1 -- later\ny=2\n', b'\n', b''):
+                    parts, ok = [], True
+                    for i, c in enumerate(cs):
+                        parts.append(c)
+                        nxt = sep if i + 1 < len(cs) else tail
+                        if c in LINE and not nxt.startswith(b'\n') and nxt != b'': ok = False      # a line comment swallows what follows on its line
+                        parts.append(nxt)
+                    if not cs: parts = [tail]
+                    if ok: check(lead + b''.join(parts))
+print(json.dumps({'n': n, 'bad': bad}))
+'''
+
+
+def header_native():
+    import json
+    import subprocess
+    verif = os.path.dirname(os.path.dirname(os.path.abspath(__file__)))
+    env = {'PYTHONPATH': source.REPO, 'PATH': '/usr/bin:/bin', 'PYTHONDONTWRITEBYTECODE': '1'}
+    try:
+        r = subprocess.run([source.REAL_PY, '-c', _HEADER_NATIVE.replace('@VERIF@', repr(verif))], capture_output=True, text=True, env=env, cwd='/', timeout=900)
+    except subprocess.TimeoutExpired:
+        return {'timeout': True}
+    if r.returncode != 0:
+        return {'error': r.stderr[-1500:]}
+    return json.loads(r.stdout)
 
 
 def header_observation(src):
